@@ -465,7 +465,9 @@ func (c *Ctx) positionTracking(info *types.Info) {
 			e     string
 		}
 		var reqs []req
-		ev.noInline = func(f *ssa.Function) bool { return f == numFn || (f.Signature.Recv() == nil && f.Signature.Params().Len() == 2 && f.Signature.Results().Len() == 1) }
+		ev.noInline = func(f *ssa.Function) bool {
+			return f == numFn || (f.Signature.Recv() == nil && f.Signature.Params().Len() == 2 && f.Signature.Results().Len() == 1)
+		}
 		ev.load = func(ld *ssa.UnOp, addr sv) (sv, bool) {
 			a := addr.s
 			switch {
